@@ -5,8 +5,10 @@ from common import proof_step, load_corpus
 from histcheck import run_cases, shrink_case, step_summary
 
 
-def evaluate(rep, cases, nontrivial, what, shrink_budget=100, compare_class=False, oracle=None):
+def evaluate(rep, cases, nontrivial, what, shrink_budget=100, compare_class=False, oracle=None, batch_aux=None):
     results = run_cases(cases, compare_class)
+    if batch_aux is not None:
+        batch_aux(cases, results)
     bad = []
     for case, go, mo, d, unm in results:
         nt = nontrivial(case, go, mo)
@@ -52,7 +54,7 @@ def evaluate(rep, cases, nontrivial, what, shrink_budget=100, compare_class=Fals
     return len(bad)
 
 
-def standard_run(rep, pid, gen_case, nontrivial, what, n_quick, n_thorough, rule, compare_class=False, oracle=None, extra_gens=()):
+def standard_run(rep, pid, gen_case, nontrivial, what, n_quick, n_thorough, rule, compare_class=False, oracle=None, extra_gens=(), batch_aux=None):
     rep.rule = rule
     rep.proof, rep.broken = proof_step(pid)
     rng = random.Random(rep.seed)
@@ -69,12 +71,12 @@ def standard_run(rep, pid, gen_case, nontrivial, what, n_quick, n_thorough, rule
         cs = (cases if first else []) + [gen_case(rng) for _ in range(min(chunk, n - done))]
         first = False
         done += min(chunk, n - done)
-        nbad += evaluate(rep, cs, nontrivial, what, compare_class=compare_class, oracle=oracle)
+        nbad += evaluate(rep, cs, nontrivial, what, compare_class=compare_class, oracle=oracle, batch_aux=batch_aux)
         if done >= n:
             break
     if rep.broken and not rep.violations:
         extra = [gen_case(rng) for _ in range(5000)]
-        if evaluate(rep, extra, nontrivial, what, compare_class=compare_class, oracle=oracle) == 0:
+        if evaluate(rep, extra, nontrivial, what, compare_class=compare_class, oracle=oracle, batch_aux=batch_aux) == 0:
             rep.violation("proof obligation no longer checks: " + "; ".join(b["obligation"] for b in rep.broken),
                           {"broken": rep.broken}, no_input=True)
 
